@@ -221,6 +221,10 @@ def main():
     disagree = [r for r in res if r.get('disagree')]
     if a.relock:
         lock[prop] = sorted(r['name'] for r in proved)
+        lock.setdefault('__locals__', {})
+        for info in infos:
+            if info.get('locals_order') is not None and '.' in info['name'] and not info['name'].startswith('lemma:'):
+                lock['__locals__'][info['name']] = info['locals_order']
         json.dump(lock, open(LOCK, 'w'), indent=0, sort_keys=True)
         print(f'relocked {prop}: {len(proved)} proved of {len(res)}; unproved: {[r["name"] for r in unproved]}; inapplicable: {inapp}')
     known = [k for k in load_known() if k.get('property') == prop and k.get('status') == 'open']
@@ -255,6 +259,8 @@ def main():
         status = 1
     elif status == 0 and (undecided or inapp or static_fail):
         status = 2
+    for r in refuted_locked:
+        lines.append(f"REFUTED property={prop} obligation={r['name']} solver={r['solver']} verdict={r['verdict']} (proved on the unchanged tree)")
     for r in undecided:
         lines.append(f"UNDECIDED property={prop} obligation={r['name']} solver={r['solver']} verdict={r['verdict']}")
     for s_ in static_fail:
